@@ -399,6 +399,29 @@ impl<'a> LiveEvents<'a> {
 
                     let tag_s = SfTag::from_optional_cow(&tag);
 
+                    // The parser copies the text of a block scalar (it has to strip the
+                    // indentation). The text of a one-line block scalar still stands in the input
+                    // verbatim: it is handed on borrowed, like a plain or quoted scalar without
+                    // escapes, so that it can be lent wherever it ends up (directly, replayed
+                    // from an anchor's buffer, as a mapping key, through `deserialize_any`).
+                    let val = match (val, self.input) {
+                        (Cow::Owned(text), Some(input))
+                            if matches!(style, ScalarStyle::Literal | ScalarStyle::Folded) =>
+                        {
+                            let verbatim = location
+                                .span()
+                                .byte_offset()
+                                .map(|start| start as usize)
+                                .and_then(|start| input.get(start..start.checked_add(text.len())?))
+                                .filter(|slice| *slice == text);
+                            match verbatim {
+                                Some(slice) => Cow::Borrowed(slice),
+                                None => Cow::Owned(text),
+                            }
+                        }
+                        (val, _) => val,
+                    };
+
                     if val.is_empty()
                         && anchor_id != 0
                         && matches!(style, ScalarStyle::SingleQuoted | ScalarStyle::DoubleQuoted)
